@@ -13,13 +13,14 @@ def elemWidth (t : Byte) : Option Nat :=
   else none
 
 /-- A well-formed in-memory aux field (`sam.Aux`): two tag bytes, a type letter and a payload of the size the type
-demands: `A c C` 1 byte, `s S` 2, `i I f` 4; `Z`/`H` any bytes but the whole field free of NUL (the payload is stored
-without its terminator); `B` a sub-type among `c C s S i I f`, a 32-bit count and exactly count × width payload bytes. -/
+demands: `A c C` 1 byte, `s S` 2, `i I f` 4; `Z` any bytes but the whole field free of NUL (the payload is stored
+without its terminator); `H` ANY bytes (the decoded byte array; it is written as hex digits), tag bytes not NUL; `B` a sub-type among `c C s S i I f`, a 32-bit count and exactly count × width payload bytes. -/
 def auxOK (a : List Byte) : Bool :=
   match a with
-  | _ :: _ :: t :: v =>
+  | t0 :: t1 :: t :: v =>
     if t == 65#8 then v.length == 1
-    else if t == 90#8 || t == 72#8 then !a.contains 0#8
+    else if t == 90#8 then !a.contains 0#8
+    else if t == 72#8 then t0 != 0#8 && t1 != 0#8
     else if t == 66#8 then
       match v with
       | sub :: n0 :: n1 :: n2 :: n3 :: elems =>
@@ -37,9 +38,14 @@ def inInt32 (x : Int) : Prop := -2147483648 ≤ x ∧ x < 2147483648
 
 instance (x : Int) : Decidable (inInt32 x) := by unfold inInt32; infer_instance
 
-/-- total size of the aux block as written (`Z`/`H` fields get their NUL back) -/
-def auxSize (as : List (List Byte)) : Nat :=
-  (as.map (fun a => a.length + (if isZH (a.getD 2 0#8) then 1 else 0))).sum
+/-- size of one aux field as written: `Z` gets its NUL back, `H` is two digits per payload byte and a NUL -/
+def auxSize1 (a : List Byte) : Nat :=
+  if a.getD 2 0#8 == 72#8 then a.length + (a.length - 3) + 1
+  else if a.getD 2 0#8 == 90#8 then a.length + 1
+  else a.length
+
+/-- total size of the aux block as written -/
+def auxSize (as : List (List Byte)) : Nat := (as.map auxSize1).sum
 
 /-- The records the BAM format can represent, for a header with `nrefs` references. -/
 structure WF (nrefs : Nat) (r : Record) : Prop where
